@@ -334,6 +334,36 @@ def run(ctx):
                         ctx.fail('read(write(L)) == sysex(L) [binary]', f'overwrite:{type(exc).__name__}', case, repr(exc))
                     os.remove(path)
                     n += 1
+            # a write that fails half way (a message that cannot be encoded, in the middle of the list); the caller
+            # holds on to the exception, writes a valid list to the same path, lets go of the exception, reads
+            import gc
+            for plaintext in (False, True):
+                for keep in (True, False):
+                    for nbefore in (0, 1, 400):
+                        path = os.path.join(d, f'fw{ctx.count_files}.syx')
+                        ctx.count_files += 1
+                        case = {'kind': 'failed-write', 'plaintext': plaintext, 'exception_kept': keep, 'good_before_bad': nbefore}
+                        bad_list = [Message('sysex', data=(i % 128, 1, 2, 3, 4, 5, 6, 7)) for i in range(nbefore)] + \
+                            [Message('sysex', data=(1, 300), skip_checks=True), Message('sysex', data=(9,))]
+                        held = None
+                        try:
+                            try:
+                                write_syx_file(path, bad_list, plaintext=plaintext)
+                            except Exception as exc:
+                                held = exc if keep else None
+                            good = [Message('sysex', data=(42, 43)), Message('sysex', data=())]
+                            write_syx_file(path, good, plaintext=plaintext)
+                            held = None
+                            gc.collect()
+                            got = read_syx_file(path)
+                            ctx.check('read(write(L)) == sysex(L) [text]' if plaintext else 'read(write(L)) == sysex(L) [binary]',
+                                      data_of(got) == [(42, 43), ()], 'failed-write-leaves-something-behind', case, data_of(got)[:4])
+                        except Exception as exc:
+                            ctx.fail('read(write(L)) == sysex(L) [binary]', f'failed-write:{type(exc).__name__}', case, repr(exc))
+                        finally:
+                            if os.path.exists(path):
+                                os.remove(path)
+                        n += 1
             # failed reads (and other calls) must leave nothing behind for the next read
             good = os.path.join(d, 'good.syx')
             write_syx_file(good, [Message('sysex', data=(9, 8, 7))])
